@@ -2364,6 +2364,8 @@ pub struct VerifDump {
     pub background_compaction_scheduled: bool,
     pub has_manual_compaction: bool,
     pub bad_state: Option<String>,
+    /// `VersionSet::needs_compaction()` of the current version
+    pub needs_compaction: bool,
 }
 
 /// Introspection for the verification hooks (`--cfg raindb_verif` only).
@@ -2438,6 +2440,7 @@ impl DB {
             background_compaction_scheduled: guard.background_compaction_scheduled,
             has_manual_compaction: guard.maybe_manual_compaction.is_some(),
             bad_state: guard.maybe_bad_database_state.as_ref().map(|e| e.to_string()),
+            needs_compaction: guard.version_set.needs_compaction(),
         }
     }
 }
